@@ -187,7 +187,9 @@ func runC04(c *rt.Ctx) {
 	c.Assume("encoding/json trusted; well-formedness and form of the marshalled JSON read through harness/ref/jsontree.go; arithmetic through harness/ref/size.go")
 	{
 		sc := rt.ReplayCtx("C04")
-		sc.Serial("selftest", func(w *rt.W) { w.Fail("k", "roundtrip", nil, "9007199254740992", "9007199254740993", "synthetic float rounding") })
+		sc.Serial("selftest", func(w *rt.W) {
+			w.Fail("k", "roundtrip", nil, "9007199254740992", "9007199254740993", "synthetic float rounding")
+		})
 		c.SelfTest("monitor-records-a-mismatch", sc.Violations() == 1)
 	}
 	nSeeded := c.Pick(100000, 6000000)
